@@ -590,6 +590,231 @@ def check_C12(tier, seed):
 
 
 # ---------------------------------------------------------------------------
+# The collector: C03 (nothing reachable is reclaimed) and C04 (garbage is, nothing is left)
+# ---------------------------------------------------------------------------
+GC_ACTIONS = ("Alloc", "Link", "Unroot", "Collect", "Untrace", "Drop", "CallerFree")
+C03_CLASSES = {"lost", "twice", "markidx", "dead-deref", "double-free", "reclaimed", "root-not-passed",
+               "mark-index", "two-owners"}
+C04_CLASSES = {"leak", "unmanaged", "kept-garbage", "leak-managed", "leak-lost", "double-free", "twice"}
+
+
+def gc_model_leg(o, tier):
+    """M1: the design and the algorithm of the collector, all operation sequences (NlGC)"""
+    t0 = time.time()
+    wd = core.workdir(f"{o.prop}_model")
+    cfg = "MC_NlGC.cfg" if tier == "quick" else "MC_NlGC_thorough.cfg"
+    r = core.run_tlc("NlGC.tla", cfg, workdir_=wd, workers=8, coverage=True, timeout=3000, xmx="8g")
+    if r.error:
+        raise ToolError("NlGC: " + r.error)
+    if r.violated:
+        # the design itself (Dev = {}) breaks one of its invariants: a tool/spec error, not a finding about the code
+        raise ToolError(f"NlGC (Dev = {{}}) violates {r.violated}")
+    o.add_tlc(r)
+    uncovered = [a for a in GC_ACTIONS if r.coverage.get("NlGC." + a, 0) == 0]
+    if uncovered:
+        raise ToolError(f"NlGC actions never taken (vacuous model): {uncovered}")
+    refuted = {}
+    for dev in ("dev1", "dev2"):
+        rr = core.run_tlc("NlGC.tla", f"MC_NlGC_{dev}.cfg", workdir_=wd, workers=4, timeout=1200)
+        refuted[dev] = rr.violated
+        if not rr.violated:
+            raise ToolError(f"non-vacuity: deviation {dev} is not refuted by the invariants of NlGC")
+    acts = {k.split(".")[1]: v for k, v in r.coverage.items() if k.startswith("NlGC.")}
+    if not acts:
+        raise ToolError("NlGC: no action coverage reported by TLC")
+    o.legs.append({"leg": "model", "cfg": cfg, "distinct_states": r.distinct, "generated": r.generated,
+                   "action_coverage": {k: acts[k] for k in acts if k in GC_ACTIONS},
+                   "deviations_refuted": refuted, "wall_s": round(time.time() - t0, 1)})
+
+
+def gc_replay_leg(o, classes, tier, seed):
+    """M2: behaviours of NlGC replayed on the real collector"""
+    t0 = time.time()
+    wd = core.workdir(f"{o.prop}_replay")
+    num = size(tier, 300, 6000)
+    r = core.run_tlc("NlGCVec.tla", "NlGCVec.cfg", workdir_=wd, simulate=f"num={num}", timeout=1200,
+                     extra=["-depth", "12", "-seed", str(seed)])
+    if r.error:
+        raise ToolError("NlGCVec: " + r.error)
+    vecs = r.vecs[: size(tier, 1500, 40000)]
+    o.add_tlc(r)
+    if not vecs:
+        raise ToolError("NlGCVec produced no vectors")
+    shards = min(core.NCPU, max(1, len(vecs) // 100))
+    files = []
+    for k in range(shards):
+        vf_ = os.path.join(wd, f"vec{k}.ndjson")
+        core.write_ndjson(vf_, vecs[k::shards])
+        files.append(vf_)
+
+    def rep(k):
+        out = os.path.join(wd, f"rep{k}.ndjson")
+        core.run_nlh(["replay-gc", "--in", files[k], "--out", out, "--first-id", k * 1000000 + 1])
+        return out
+    reps = core.parallel(rep, list(range(shards)))
+    results = run_tv_shards(reps, "TV_GCReplay.tla", "TV_GCReplay.cfg", wd)
+    counts = {}
+    nrec = 0
+    agreeing_like = []
+    for f, rr in zip(reps, results):
+        o.add_tlc(rr)
+        recs = {x["id"]: x for x in core.read_ndjson(f)}
+        nrec += len(recs)
+        for v in rr.verdicts:
+            o.traces += 1
+            rec = recs[v["id"]]
+            agreeing_like.append(rec)
+            for c in v.get("classes", []):
+                counts[c] = counts.get(c, 0) + 1
+                if c in classes:
+                    at = [x["at"] for x in v["first"] if x["class"] == c][0]
+                    ops = [x["op"] for x in rec["ops"]]
+                    o.violation({"leg": "replay", "rule": "gc", "hclass": c, "at": at, "ops": ops[:at]},
+                                {"ops": rec["ops"][:at], "observed": rec["obs"][:at], "class": c})
+            if not v.get("classes"):
+                counts["conforms"] = counts.get("conforms", 0) + 1
+    if len(o.samples) < 3 and agreeing_like:
+        o.samples.append({"leg": "replay", "behaviour": [x["op"] for x in agreeing_like[0]["ops"]]})
+    # sensitivity: an object the design keeps live reported dead must be flagged "lost"
+    bad = []
+    for r_ in agreeing_like[:10]:
+        c = copy.deepcopy(r_)
+        for j, e in enumerate(c["ops"]):
+            if e["live"]:
+                c["obs"][j]["live"] = [x for x in c["obs"][j]["live"] if x != e["live"][0]]
+                bad.append(c)
+                break
+    tried = rejected = 0
+    if bad:
+        bf = os.path.join(wd, "corrupt.ndjson")
+        core.write_ndjson(bf, bad)
+        rr = core.tlc_or_die("TV_GCReplay.tla", "TV_GCReplay.cfg", env={"RECS": bf}, workdir_=wd)
+        tried = len(bad)
+        rejected = sum(1 for v in rr.verdicts if "lost" in v.get("classes", []))
+        if tried != rejected:
+            raise ToolError(f"replay: sensitivity self-test failed ({rejected}/{tried})")
+    o.legs.append({"leg": "replay", "behaviours": nrec, "classes_seen": counts, "sensitivity_tried": tried,
+                   "sensitivity_rejected": rejected, "wall_s": round(time.time() - t0, 1)})
+
+
+def ledger_leg(o, name, classes, mode, n, seed, max_k=120):
+    """M3: heap-ledger traces of whole evaluations validated against NlHeapLedger"""
+    t0 = time.time()
+    shards = max(1, min(core.NCPU, n // (4 if mode == "aborts" else 40)))
+    wd = core.workdir(f"{o.prop}_{name}")
+    per = (n + shards - 1) // shards
+
+    def gen(i):
+        f = os.path.join(wd, f"h{i}.ndjson")
+        core.run_nlh(["gen-heap", "--mode", mode, "--seed", seed * 1031 + i, "--n", per, "--max-k", max_k,
+                      "--first-id", i * 1000000 + 1, "--out", f], timeout=3000)
+        return f
+    files = core.parallel(gen, list(range(shards)))
+    results = run_tv_shards(files, "NlHeapLedger.tla", "NlHeapLedger.cfg", wd, timeout=3000)
+    counts = {}
+    nrec = nev = 0
+    pool = []
+    for f, r in zip(files, results):
+        if r.violated:
+            raise ToolError(f"NlHeapLedger internal invariant {r.violated} violated on {f}")
+        o.add_tlc(r)
+        recs = {x["id"]: x for x in core.read_ndjson(f)}
+        srcs = {x["id"]: x for x in core.read_ndjson(f + ".src")}
+        nrec += len(recs)
+        if len(r.verdicts) != len(recs):
+            raise ToolError(f"{name}: {len(r.verdicts)} verdicts for {len(recs)} records in {f}")
+        for v in r.verdicts:
+            o.traces += 1
+            nev += v.get("events", 0)
+            rec = recs[v["id"]]
+            if rec["obs"]["class"] in ("Panic", "Abort", "Timeout"):
+                counts["crashed-run"] = counts.get("crashed-run", 0) + 1
+                continue
+            if len(pool) < 40 and rec["heap"]:
+                pool.append(rec)
+            cls = sorted({x["class"] for x in v.get("viol", [])})
+            if not cls:
+                counts["clean"] = counts.get("clean", 0) + 1
+            for c in cls:
+                counts[c] = counts.get(c, 0) + 1
+                if c in classes:
+                    s_ = srcs.get(v["id"], {})
+                    o.violation({"leg": name, "rule": "heap", "hclass": c, "k": rec.get("k"),
+                                 "class": rec["obs"]["class"], "text": s_.get("text", "")},
+                                {"text": s_.get("text", ""), "abort_after": rec.get("k"), "viol": v["viol"][:6],
+                                 "record_file": f, "id": v["id"], "spec_module": "NlHeapLedger.tla",
+                                 "cfg": "NlHeapLedger.cfg"})
+    if pool and len(o.samples) < 4:
+        o.samples.append({"leg": name, "events": pool[0]["heap"][:12]})
+    # sensitivity: injected use-after-release, double release and premature reclamation are flagged
+    bad = []
+    for k, r_ in enumerate(pool[:9]):
+        c = copy.deepcopy(r_)
+        ids = [e["id"] for e in c["heap"] if e["e"] == "Alloc"]
+        if not ids:
+            continue
+        if k % 3 == 0:
+            c["heap"].append({"e": "DeadDeref", "id": ids[0]}); c["_expect"] = "dead-deref"
+        elif k % 3 == 1:
+            c["heap"].append({"e": "Free", "id": ids[0], "dup": True}); c["_expect"] = "double-free"
+        else:
+            c["heap"] = [{"e": "Alloc", "id": 1}, {"e": "Trace", "gc": 1, "id": 1},
+                         {"e": "Snapshot", "roots": [1], "edges": []},
+                         {"e": "RunBegin", "gc": 1, "managed": [1], "given": [1]},
+                         {"e": "Free", "id": 1, "dup": False},
+                         {"e": "RunEnd", "gc": 1, "managed": []}]
+            c["live_after"] = []
+            c["_expect"] = "reclaimed"
+        bad.append(c)
+    tried = rejected = 0
+    if bad:
+        bf = os.path.join(wd, "corrupt.ndjson")
+        core.write_ndjson(bf, bad)
+        rr = core.tlc_or_die("NlHeapLedger.tla", "NlHeapLedger_sens.cfg", env={"RECS": bf}, workdir_=wd)
+        byid = {b["id"]: b for b in bad}
+        tried = len(bad)
+        rejected = sum(1 for v in rr.verdicts if byid[v["id"]]["_expect"] in {x["class"] for x in v.get("viol", [])})
+        if tried != rejected:
+            raise ToolError(f"{name}: sensitivity self-test failed ({rejected}/{tried})")
+    o.legs.append({"leg": name, "records": nrec, "events_checked": nev, "classes_seen": counts,
+                   "sensitivity_tried": tried, "sensitivity_rejected": rejected,
+                   "wall_s": round(time.time() - t0, 1)})
+
+
+def check_C03(tier, seed):
+    o = Outcome("C03", tier, seed, "model_checking")
+    o.assumptions = [
+        "the design and algorithm of the collector as stated in spec/NlGC.tla (reverse-order swap_remove sweep, idempotent array marking, recursive untrace, ownership protocol)",
+        "shadow heap: a released box is quarantined under the hooks, so that a later use is observed instead of being undefined behaviour",
+        "the machine's roots are taken from the machine itself at each collection point (stack, globals, constants, last value, value being returned), not from the arguments passed to the collector",
+    ]
+    gc_model_leg(o, tier)
+    gc_replay_leg(o, C03_CLASSES, tier, seed)
+    ledger_leg(o, "ledger-runs", C03_CLASSES, "runs", size(tier, 1600, 40000), seed)
+    o.extra["exhaustive"] = True
+    o.extra["rule"] = ("model: all operation sequences up to the bound over 3 objects (alloc / link / unroot / collect / untrace / drop / "
+                       "caller-free), design and algorithm in lock step; replay: simulated behaviours of the model executed on the real "
+                       "collector; ledger: heap and collector events of allocating programs validated event by event")
+    return o.finish()
+
+
+def check_C04(tier, seed):
+    o = Outcome("C04", tier, seed, "model_checking")
+    o.assumptions = [
+        "as C03; additionally: after eval returns the harness releases the result graph, each distinct box once, and the ledger must be empty",
+        "abort points: the run is ended with an error after exactly k dispatched instructions, for every k up to the length of the run (bounded per program), through the same `?` exit a runtime error takes",
+    ]
+    gc_model_leg(o, tier)
+    gc_replay_leg(o, C04_CLASSES, tier, seed)
+    ledger_leg(o, "ledger-runs", C04_CLASSES, "runs", size(tier, 800, 20000), seed)
+    ledger_leg(o, "ledger-every-abort-point", C04_CLASSES, "aborts", size(tier, 48, 2000), seed + 5,
+               max_k=size(tier, 100, 400))
+    o.extra["exhaustive"] = True
+    o.extra["rule"] = ("as C03, plus for each of a set of allocating programs one run per abort point k = 0..L (complete per program up to the bound)")
+    return o.finish()
+
+
+# ---------------------------------------------------------------------------
 # C06: operators, exact over the whole range
 # ---------------------------------------------------------------------------
 def corrupt_big(rec, k):
@@ -692,6 +917,8 @@ CHECKS = {
     "C12": check_C12,
     "C10": check_C10,
     "C02": check_C02,
+    "C03": check_C03,
+    "C04": check_C04,
 }
 
 
